@@ -34,16 +34,19 @@ def lookupT (σ : List (Term × Term)) (t : Term) : Option Term :=
 def dropBound (σ : List (Term × Term)) (vs : List Sym) : List (Term × Term) :=
   σ.filter (fun kv => kv.1.fv.all (fun m => !vs.contains m))
 
+/-- the map used for the children of a node (`Substituter._push_with_children_to_stack`) -/
+def bodyMap (σ : List (Term × Term)) (op : Op) (p : Payload) : List (Term × Term) :=
+  match op, p with
+  | .forall_, .qvars vs => dropBound σ vs
+  | .exists_, .qvars vs => dropBound σ vs
+  | _, _ => σ
+
 /-- `MGSubstituter(env).substitute(t, σ)` -/
 def substT (σ : List (Term × Term)) : Term → Term
   | .node op args p =>
     match lookupT σ (.node op args p) with
     | some r => r
-    | none =>
-      match op, args, p with
-      | .forall_, [b], .qvars vs => mkForall vs (substT (dropBound σ vs) b)
-      | .exists_, [b], .qvars vs => mkExists vs (substT (dropBound σ vs) b)
-      | op, args, p => rebuild op (args.map (substT σ)) p
+    | none => rebuild op (args.map (substT (bodyMap σ op p))) p
 
 /-- `itertools.combinations(l, r)` -/
 def combinations {α} : List α → Nat → List (List α)
